@@ -262,7 +262,7 @@ async fn exec_once(sc: &Scen, x_runtime: Option<tokio::runtime::Handle>) -> (Out
         // … or after it (threshold 1.2 s, grace 0.3 s, consent timeout 4 s): Disconnected → grace expiry → Failed
         ice_connection_timeout: Some(Duration::from_secs(if icefail_ka { 2 } else if vanish_then_fail { 4 } else { 30 })), sctp_max_buffered: if blocked_ev.is_some() { Some(16 * 1024) } else { None },
         sctp_heartbeat: if hb { Some((Duration::from_millis(500), 3, 3)) } else { None }, q_legacy: None,
-        p_runtime: x_runtime.clone() };
+        p_runtime: x_runtime.clone(), rtp_port_range: None };
     let mut p = Pair::create(cfg, &knobs);
     out.has_app = cfg.mix.has_data();
     // subject: the offerer, except for the remote-offer phase
